@@ -214,8 +214,10 @@ def write_evidence(pid, tier, seed, records, violations, wall, assumptions, outs
         "wall_s": round(wall, 1),
         "violations": len(violations),
     }
-    os.makedirs(os.path.join(VERIF, "evidence"), exist_ok=True)
-    with open(os.path.join(VERIF, "evidence", f"{pid}.json"), "w") as f:
+    # (VERIF_EVIDENCE_DIR: used by tools/seed_run.sh so that runs against a seeded change never touch /verif/evidence)
+    evdir = os.environ.get("VERIF_EVIDENCE_DIR") or os.path.join(VERIF, "evidence")
+    os.makedirs(evdir, exist_ok=True)
+    with open(os.path.join(evdir, f"{pid}.json"), "w") as f:
         json.dump(ev, f, indent=1)
 
 
